@@ -113,8 +113,8 @@ def run(ctx):
             if abs(s / mf.delta_c - 1) > (5e-3 if filt == "TopHat" else 2e-2):
                 viol("mass_nonlinear/sigma-ne-delta_c", f"sigma(mass_nonlinear)={s:.4f} != delta_c={mf.delta_c} for grid [{lo},{hi}], z={z}, filter {filt}{fprm or ''} (mass_nonlinear={mnl:.4g})", {"Mmin": lo, "Mmax": hi, "z": z, "delta_c": dc, "filter_model": filt, "filter_params": fprm})
         # Behroozi adds only its documented correction to the Tinker10 dn/dm
-        for z in (0.0, 1.0, 3.0, 6.0):
-            kw = dict(transfer_model="EH", Mmin=10.0, Mmax=15.0, dlog10m=0.25, z=z, lnk_min=-12.0, lnk_max=10.0, dlnk=0.2)
+        for z in (0.0, 1.0, 3.0, 6.0, 8.0, 8.5, 12.0):      # also beyond the redshifts of the calibrating simulations (z <= 8)
+            kw = dict(transfer_model="EH", Mmin=10.0 if z < 8 else 8.0, Mmax=15.0 if z < 8 else 12.0, dlog10m=0.25, z=z, lnk_min=-12.0, lnk_max=10.0, dlnk=0.2)
             b = MassFunction(hmf_model="Behroozi", **kw)
             t = MassFunction(hmf_model="Tinker10", mdef_model="SOVirial", **kw)
             a = 1 / (1 + z)
@@ -144,7 +144,7 @@ def run(ctx):
     out["coverage"] = {
         "evaluations": len(reqs) + ncase * 8 + nmnl, "programs": len(exp), "disagreements_checked": len(exp), "traces_validated_against_impl": len(exp),
         "distinct_nontrivial": ncase,
-        "rule": "random compatible combinations of transfer, filter, growth, fit (18 fits) and mass-definition models, cosmology overrides, z, sigma_8, n, delta_c, mass grids (integer and float arguments); each: 14 regenerated bodies at Float vs real, identity with independent rho0, fit vs stand-alone component on the framework's own inputs, sub-grid embedding; 18 mass_nonlinear cases (inside/outside the grid, z>=0, four filters; sigma at the independently written radius of the returned mass equals delta_c); Behroozi correction at 4 redshifts",
+        "rule": "random compatible combinations of transfer, filter, growth, fit (18 fits) and mass-definition models, cosmology overrides, z, sigma_8, n, delta_c, mass grids (integer and float arguments); each: 14 regenerated bodies at Float vs real, identity with independent rho0, fit vs stand-alone component on the framework's own inputs, sub-grid embedding; 18 mass_nonlinear cases (inside/outside the grid, z>=0, four filters; sigma at the independently written radius of the returned mass equals delta_c); Behroozi correction at 7 redshifts (up to z = 12)",
         "gen_disagreements": nbad, "configs": ncase, "samples": [{"body": e[0], "config": str(e[2])[:200], "impl": e[1][:2].tolist()} for e in exp[:2]],
         "search": "oracles on the real MassFunction",
     }
